@@ -1,6 +1,6 @@
 /-
-C07 — BCH exactness on the free nilpotent algebra for the orders 7 and 8 (kernel computation; kept in
-its own module because the two evaluations take a few minutes).
+C07 — BCH exactness on the free nilpotent algebra for the order 7 (kernel computation; kept in
+its own module because the evaluation takes about a minute; order 8 needs ~14 GB and is not attempted).
 -/
 import OFV.Model.C07BCH
 import OFV.Spec.C07BCH
@@ -11,8 +11,6 @@ namespace C07
 open OFV.Model.C07
 
 theorem bch_check_7 : Spec.BCH.check 7 (generateNestedCommutator 7) = true := by decide +kernel
-
-theorem bch_check_8 : Spec.BCH.check 8 (generateNestedCommutator 8) = true := by decide +kernel
 
 end C07
 end Proofs
